@@ -139,16 +139,18 @@ type tokenKeys struct {
 // derived keys (the harness generated both key pairs, so it can decrypt the
 // OPN exchange like either peer).
 type secOracle struct {
-	s      *sim.Sim
-	cfg    secCfg
-	prop   string // property to blame when a chunk does not open
-	pol    *refcodec.Policy
-	ck, sk *keyPair
-	mu     sync.Mutex
-	nonceC map[uint32][]byte // request id -> client nonce of the pending OPN
-	tokens []*tokenKeys
-	Chunks int
-	failed bool
+	s    *sim.Sim
+	cfg  secCfg
+	prop string // property to blame when a chunk does not open
+	// SizeProp, if set, is blamed for chunks larger than the receiver advertised.
+	SizeProp string
+	pol      *refcodec.Policy
+	ck, sk   *keyPair
+	mu       sync.Mutex
+	nonceC   map[uint32][]byte // request id -> client nonce of the pending OPN
+	tokens   []*tokenKeys
+	Chunks   int
+	failed   bool
 	// OnPlain is called with every successfully opened chunk.
 	OnPlain func(dir string, ch *refcodec.Chunk)
 	// MaxC2S / MaxS2C: largest chunk each direction may carry (0: unchecked)
@@ -199,6 +201,9 @@ func (o *secOracle) frame(dir string, fr []byte) {
 	}
 	o.Chunks++
 	if max := map[string]int{"c2s": o.MaxC2S, "s2c": o.MaxS2C}[dir]; max > 0 && len(fr) > max {
+		if o.SizeProp != "" {
+			o.prop = o.SizeProp
+		}
 		o.fail("oversized-chunk", dir, "%s chunk of %d bytes exceeds the %d bytes the receiver advertised", dir, len(fr), max)
 		return
 	}
